@@ -6,7 +6,8 @@ LEAN_MODULES = ['TboxModel.C18.Props']
 EXE = 'c18'
 THEOREMS = ['Tbox.C18.C18_reachable_inv', 'Tbox.C18.C18_channel_fifo_once', 'Tbox.C18.C18_mutex_exclusive',
             'Tbox.C18.C18_semaphore_bound', 'Tbox.C18.C18_no_lost_wakeup', 'Tbox.C18.C18_no_lost_wakeup_quiescent',
-            'Tbox.C18.C18_cancel_unblocks', 'Tbox.C18.C18_cancel_fails', 'Tbox.C18.C18_join', 'Tbox.C18.C18_join_single',
+            'Tbox.C18.C18_cancel_unblocks', 'Tbox.C18.C18_cancel_fails', 'Tbox.C18.C18_reachable_cab', 'Tbox.C18.C18_cleanup_terminates',
+            'Tbox.C18.C18_cleanup_all_dead', 'Tbox.C18.C18_cancelled_switch_terminates', 'Tbox.C18.C18_join_finished_returns_failure', 'Tbox.C18.C18_join', 'Tbox.C18.C18_join_single',
             'Tbox.C18.C18_lost_wakeup_channel_counterexample', 'Tbox.C18.C18_lost_wakeup_semaphore_counterexample',
             'Tbox.C18.C18_lost_wakeup_mutex_counterexample', 'Tbox.C18.C18_lost_wakeup_rewait_counterexample']
 SOURCES = ['modules/coroutine/scheduler.cpp'] + vlib.EVENT_SOURCES + vlib.BASE_SOURCES
@@ -180,3 +181,59 @@ LEVEL_NOTE = ('trusted: Lean kernel, hand-written model + differential tie (cove
               'no sanitizer on the implementation side (plain flavour); create() during cleanup() excluded by assumption')
 TECHNIQUE = 'Lean 4 invariant proof over all executions of a scheduler model + model/implementation correspondence check'
 DESIGN_REF = 'DESIGN.md §6 C18, §7 row 10'
+
+
+# ---- thorough: a valgrind (memcheck) run of the plain-flavour harness on the corpus and a sample of generated cases.
+# ASan cannot follow swapcontext; memcheck can, and it is what sees Cabinet::foreach reading freed cells (patches/C18-04).
+_RUN = {'tier': 'quick', 'seed': 1, 'vg_fail': None}
+
+
+def _valgrind_sample():
+    import os, random, shutil
+    if _RUN['tier'] != 'thorough' or not shutil.which('valgrind'):
+        return {'valgrind': 'not run (quick tier or valgrind missing)'}
+    exe, log = vlib.build_harness(ID, SOURCES, os.path.join(vlib.VERIF, 'props', ID, 'harness.cpp'), FLAVOUR, (), LIBS)
+    if exe is None:
+        return {'valgrind': 'harness build failed'}
+    cases = []
+    cdir = os.path.join(vlib.VERIF, 'corpus', ID)
+    for f in sorted(os.listdir(cdir)):
+        if f.endswith('.ops'):
+            cases.append([l.rstrip('\n') for l in open(os.path.join(cdir, f)) if l.strip() and not l.startswith('#')])
+    rng = random.Random('%s-vg:%d' % (ID, _RUN['seed']))
+    for _ in range(120):
+        cases.append(gen_case(rng))
+    for _ in range(120):
+        cases.append(gen_backtoback(rng))
+    text = ''.join(vlib.case_text(i, c) for i, c in enumerate(cases))
+    rc, so, se = vlib.run_proc(['valgrind', '-q', '--error-exitcode=9', exe], text, 900, env={'C18_WATCHDOG': '30'})
+    res = {'valgrind': {'cases': len(cases), 'exit': rc, 'errors': se.count('== Invalid') + se.count('== Conditional')}}
+    if rc != 0:
+        done = vlib.split_cases(so)
+        bad = max(done) if done else 0
+        body = vlib.case_text(0, cases[bad]) + '# valgrind memcheck reported an error (exit %s) while running this case\n# %s\n' % (
+            rc, '\n# '.join(se.splitlines()[:25]))
+        _RUN['vg_fail'] = vlib.write_replay(ID, 'valgrind.ops', body)
+    return res
+
+
+def extra_coverage():
+    return _valgrind_sample()
+
+
+def check(tier, seed, replay):
+    import sys, json, os
+    _RUN.update({'tier': tier if not replay else 'quick', 'seed': seed, 'vg_fail': None})
+    import types
+    me = types.SimpleNamespace(**{k: v for k, v in globals().items() if not k.startswith('__') and k != 'check'})
+    rc = vlib.standard_check(me, tier, seed, replay)
+    if _RUN['vg_fail']:
+        print('VIOLATION property=%s replay=%s' % (ID, _RUN['vg_fail']), flush=True)
+        ev = os.path.join(vlib.VERIF, 'evidence', ID + '.json')
+        try:
+            d = json.load(open(ev)); d['violations'] = d.get('violations', 0) + 1
+            json.dump(d, open(ev, 'w'), indent=1, sort_keys=True)
+        except Exception:
+            pass
+        return 1
+    return rc
